@@ -59,7 +59,20 @@ pub fn strip_comments(src: &str) -> String {
 }
 
 pub fn assemble(src: &str) -> Result<Assembled, AsmErr> {
+    assemble_in(PreprocessorContext::default(), src)
+}
+
+/// the library's documented way of reusing a context: process `noise`, call `clear()`, then assemble `src`
+pub fn assemble_after_clear(noise: &str, src: &str) -> Result<Assembled, AsmErr> {
     let mut ctx = PreprocessorContext::default();
+    let mut out = PreprocessorOutput::default();
+    let _ = catch_unwind(AssertUnwindSafe(|| PP.with(|pp| pp.parse(&mut ctx, &mut out, noise).map(|_| ()).map_err(|_| ()))));
+    ctx.clear();
+    assemble_in(ctx, src)
+}
+
+fn assemble_in(ctx: PreprocessorContext, src: &str) -> Result<Assembled, AsmErr> {
+    let mut ctx = ctx;
     let mut out = PreprocessorOutput::default();
     let res = catch_unwind(AssertUnwindSafe(|| {
         PP.with(|pp| match pp.parse(&mut ctx, &mut out, src) {
